@@ -409,6 +409,22 @@ theorem C17_token_tally_needs_votes (env : Env Ext C Pm) (s : St Ext C Pm) (com 
       rw [Int.add_mul]; exact this
     rw [h0] at this; simp at this
 
+/-- non-vacuity: a token committee with quorum 0.1 and threshold 0.5; holders of 60 of 100 tokens abstain
+    (quorum met) — the tally does not pass; with one holder of 30 voting yes instead it passes -/
+example :
+    let env : Env Unit Unit Unit := {
+      route := (fun _ => "r"), routes := ["r"], validBasic := (fun _ => true),
+      permits := (fun _ _ _ => true), handler := (fun _ e => some e),
+      bal := (fun _ _ a => if a = 0 then 30 else if a = 1 then 30 else 40), supply := (fun _ _ => 100) }
+    let com : Committee Unit := {
+      id := 1, token := true, members := [0], perms := (), threshold := ⟨P / 2⟩,
+      quorum := ⟨P / 10⟩, duration := 0, fptp := true, denom := "hard" }
+    let s (vt : VoteType) : St Unit Unit Unit := {
+      committees := [com], proposals := [⟨7, 1, 10, ()⟩],
+      votes := [⟨7, 0, vt⟩, ⟨7, 1, .abstain⟩], nextId := 8, ext := (), log := [] }
+    result env (s .abstain) com 7 = false ∧ result env (s .yes) com 7 = true := by
+  decide +kernel
+
 /-- no operation other than the begin block enacts anything -/
 theorem C17_enact_only_by_begin_block (env : Env Ext C Pm) (s s' : St Ext C Pm) (op : Op Ext C Pm)
     (hnb : ∀ now, op ≠ .beginBlock now) (h : step env s op = .ok s') :
